@@ -3,7 +3,7 @@ A program is a list of steps (each step = one Engine::run call = one compilation
 (status, last value, stdout) of every step."""
 import itertools
 
-CONSTS = ["0", "1", "#f", "'()"]
+CONSTS = ["0", "1", "#f", "'()", "'#f"]
 
 _memo = {}
 
